@@ -209,3 +209,70 @@ contract(
     name="is_repairable",
     native=False,
 )
+
+
+# ====================================================================================================== ligand block
+# C03 / C16: with --ligand, every atom of the model is written exactly once or reported (never neither, never
+# both), ligand parameters land only on hetero-group atoms whose name the ligand knows, everything else keeps the
+# force field's verdict.  Shapes: a biopolymer residue, the ligand residue (one known, one unknown atom name), an
+# unrecognised residue written with ATOM records, a water.
+def _ATOM(nm, typ, name, res):
+    return Named(nm, Obj("pdb2pqr.structures:Atom", type=Const(typ), name=Const(name), radius=Real, ffcharge=Real,
+                         residue=Ref(res)))
+
+
+def _lig_biomol():
+    return Obj("pdb2pqr.biomolecule:Biomolecule", num_missing_heavy=Int, pdblist=Items(),
+               residues=Items(
+                   Named("ra", Obj("pdb2pqr.aa:ALA", name=Const("ALA"), atoms=Items(_ATOM("a0", "ATOM", "C1", "ra")), charge=Const(0))),
+                   Named("rl", Obj("pdb2pqr.aa:LIG", name=Const("LIG"), res_seq=Int, charge=Real,
+                                   atoms=Items(_ATOM("l0", "HETATM", "C1", "rl"), _ATOM("l1", "HETATM", "ZZ", "rl")))),
+                   Named("ru", Obj("pdb2pqr.aa:LIG", name=Const("CA"), res_seq=Int, charge=Const(0),
+                                   atoms=Items(_ATOM("u0", "ATOM", "CA", "ru"), _ATOM("u1", "ATOM", "C1", "ru")))),
+                   Named("rw", Obj("pdb2pqr.aa:WAT", name=Const("HOH"), atoms=Items(_ATOM("w0", "HETATM", "O", "rw")), charge=Const(0)))))
+
+
+LIG_TRACE = dict(TRACE)
+LIG_TRACE["pdb2pqr.biomolecule:Biomolecule.apply_force_field"] = TupleOf(
+    Items(Ref("a0"), Ref("w0")), Items(Ref("l0"), Ref("l1"), Ref("u0"), Ref("u1")))
+LIG_TRACE["pdb2pqr.ligand.mol2:Mol2Molecule.assign_parameters"] = None
+
+
+def times(lst, x):
+    n = 0
+    for y in lst:
+        if y is x:
+            n = n + 1
+    return n
+
+
+def written():
+    return calls_of('print_biomolecule_atoms')[0].args['atomlist']
+
+
+contract(
+    "pdb2pqr.main:non_trivial", ["C03", "C16"],
+    params={"args": ARGS(assign_only=Const(True), pka_method=Const(None), ligand=Const("ligand.mol2")),
+            "biomolecule": _lig_biomol(),
+            "ligand": Obj("pdb2pqr.ligand.mol2:Mol2Molecule",
+                          atoms=DictOf(("C1", Named("m0", Obj("MolAtom", radius=Real, charge=Real))),
+                                       ("O", Named("m1", Obj("MolAtom", radius=Real, charge=Real))))),
+            "definition": Obj("Definition"), "is_cif": Const(False)},
+    requires=[],
+    ensures=[
+        # C03: no atom of the model vanishes, none is both written and reported
+        "forall([a0, l0, l1, u0, u1, w0], lambda a: (times(written(), a) == 1 and times(result['missed_residues'], a) == 0) "
+        "or (times(written(), a) == 0 and times(result['missed_residues'], a) >= 1))",
+        # C16: ligand parameters only on the hetero group's atoms the ligand names
+        "l0.radius is m0.radius and l0.ffcharge is m0.charge and times(written(), l0) == 1",
+        "times(written(), l1) == 0",
+        "forall([a0, u0, u1, w0, l1], lambda a: a.radius is old(a.radius) and a.ffcharge is old(a.ffcharge))",
+        "times(written(), a0) == 1 and times(written(), w0) == 1 and times(written(), u0) == 0 and times(written(), u1) == 0",
+        "n_calls('assign_parameters') == 1",
+    ],
+    raises={"ValueError": "True"},
+    trace=LIG_TRACE,
+    name="non_trivial.ligand",
+    native=False,
+    budget=5000,
+)
